@@ -24,7 +24,7 @@ RULE = ('scenario families: hostile mailbox names x (CREATE LIST LSUB STATUS SEL
         'escape, a literal, or a nested list; distinct by output bytes')
 
 HEADER_VALUES = [b'plain', b'a\rb', b'a\nb', b'a\r\n b', b'x\x00y', b'caf\xc3\xa9', b'\xff\xfe', b'"quoted" \\ back', b'(paren', b'{5}', b'brace}', b'x' * 90, b'=?utf-8?q?h=C3=A9llo?=',
-                 b'=?utf-8?b?4pyT?= ok', b'a@b.c', b'"A \\"B\\"" <a@b.c>', b'<id@host>', b'Mon, 1 Jan 2001 10:00:00 +0000', b'garbage date', b'', b' ', b'\t', b'a;b="c\rd"', b'%s%n',
+                 b'=?utf-8?b?4pyT?= ok', b'a@b.c', b'"A \\"B\\"" <a@b.c>', b'<id@host>', b'Mon, 1 Jan 2001 10:00:00 +0000', b'garbage date', b'Fri, 31 Dec 9999 23:59:59 -0000', b'Fri, 31 Dec 9999 23:59:59 -1200', b'Mon, 1 Jan 0001 00:00:00 +1400', b'1 Jan 1800 00:00:00 -0000', b'', b' ', b'\t', b'a;b="c\rd"', b'%s%n',
                  b'NIL', b'\\', b'"', b'a' + b'\xe2\x80\xa8' + b'b', b'text/plain; charset="x\ry"; name="n\x00m"', b'multipart/mixed; boundary="b\r1"', b'inline; filename="f\\"g"',
                  # repetition: whatever walks a header value must not do it by recursion (Subject prefixes, comments, groups, id lists)
                  b're: ' * 1500 + b'x', b'[t] ' * 1500 + b'x', b'Fwd: Re: ' * 800, b'<a@b> ' * 1500, b'(' * 1500, b'(a' * 700 + b')' * 700, b'a@b, ' * 1500, b'g:' * 1200 + b';',
@@ -202,7 +202,12 @@ async def scenario(part, r, backend, outputs):
         for _ in range(n_msgs):
             msg = hostile_message(r)
             kws = b' '.join(r.sample(KEYWORDS, r.randint(0, 3)))
-            await cmd(b'APPEND INBOX (' + kws + b') {%d+}\r\n' % len(msg) + msg, 'append')
+            # now and then with a date-time: the ends of the calendar, short years, zones with seconds (refused or not, what comes back is a date-time)
+            when = b''
+            if r.random() < 0.4:
+                when = b'"' + r.choice([b'31-Dec-9999 23:59:59 -1200', b'01-Jan-0001 00:00:00 +1400', b'01-Jan-0099 00:00:00 +0000', b'01-Jan-1800 00:00:00 +0000', b' 1-Jan-2020 00:00:00 +0100',
+                                        b'01-Jan-2020 00:00:00 +000030', b'01-Jan-2020 00:00:00 Z', b'01-Jan-99 00:00:00 +0000', b'15-Jul-2021 23:30:00 -0930']) + b'" '
+            await cmd(b'APPEND INBOX (' + kws + b') ' + when + b'{%d+}\r\n' % len(msg) + msg, 'append')
         await cmd(b'NOOP', 'noop')
         await cmd(b'FETCH 1:* (FLAGS UID)', 'fetch-flags')
         for attr in r.sample(FETCH_ATTRS, 10):
